@@ -1,5 +1,6 @@
 import Poulpy.Driver.Util
 import Poulpy.Model.Ntt120
+import Poulpy.Model.Ntt120Hal
 
 /-!
 Model driver for `ntt120` — same request format as `pvh ntt120` (harness/src/cmd_ntt120.rs):
@@ -67,6 +68,68 @@ def showTable (P : PrimeSet) (inverse : Bool) (n : Nat) : String :=
   | .panic c, _, _, _ => "panic:" ++ c
   | _, _, _, _ => "panic:assert"
 
+/-! ### HAL level: the raw q120b words the back end stores in a DFT-domain buffer (`pvh hal … ; raw D`) -/
+
+/-- the stored words of one limb from its four prime lanes: word `4·i + k` = lane `k`, slot `i` -/
+def limbWords (n : Nat) (lane : Nat → List Nat) : List Nat :=
+  interleave4 (lane 0).toArray (lane 1).toArray (lane 2).toArray (lane 3).toArray n
+
+def showLimbs (n : Nat) (cnt : Nat) (lanes : Nat → List (List Nat)) : String :=
+  showChunks ((List.range cnt).map (fun l => limbWords n (fun k => (lanes k).getD l [])))
+
+def polys (n : Nat) (l : List Int) : List Poly :=
+  if n = 0 then [] else (List.range (l.length / n)).map (fun i => (l.drop (n * i)).take n)
+
+/-- `e=` of `hexpr`: prefix notation, tokens separated by `,`, polynomial coefficients by `:` -/
+partial def parseExpr (n : Nat) : List String → Option (DExpr × List String)
+  | "zero" :: r => some (.zero, r)
+  | "dft" :: p :: r => some (.dft ((p.splitOn ":").map (fun s => s.toInt?.getD 0)), r)
+  | "svp" :: p :: r => (parseExpr n r).map (fun (e, r') => (.svp ((p.splitOn ":").map (fun s => s.toInt?.getD 0)) e, r'))
+  | "add" :: r => (parseExpr n r).bind (fun (x, r1) => (parseExpr n r1).map (fun (y, r2) => (.add x y, r2)))
+  | "sub" :: r => (parseExpr n r).bind (fun (x, r1) => (parseExpr n r1).map (fun (y, r2) => (.sub x y, r2)))
+  | "neg" :: r => (parseExpr n r).map (fun (x, r1) => (.neg x, r1))
+  | _ => none
+
+def handleHal (P : PrimeSet) (op : String) (args : List String) (avx : Bool) : String :=
+  let n := kvNat args "n"
+  let q := fun k => P.qs.getD k 1
+  let xi := kvInts args "x"
+  let yi := kvInts args "y"
+  match op with
+  | "hdft" =>
+    let rs := kvNat args "rs"
+    showLimbs n rs (fun k => dftApplyLaneK (q k) n (realNtt P n k) (kvNat args "step") (kvNat args "off") rs (polys n xi))
+  | "hcnv" =>
+    let rs := kvNat args "rs"
+    showLimbs n rs (fun k => cnvApplyLaneK (q k) (bbcH P) n rs (kvNat args "off")
+      (cnvPrepareLaneK (q k) n (realNtt P n k) (kvNat args "la") (kvInt args "ma") (polys n xi))
+      (cnvPrepareRightLaneK (q k) n (realNtt P n k) (kvNat args "lb") (kvInt args "mb") (polys n yi)))
+  | "hcnvp" =>
+    let rs := kvNat args "rs"
+    let la := kvNat args "la"; let lb := kvNat args "lb"; let ma := kvInt args "ma"; let mb := kvInt args "mb"
+    showLimbs n rs (fun k => cnvPairwiseLaneK (q k) (bbcH P) n rs (kvNat args "off")
+      (cnvPrepareLaneK (q k) n (realNtt P n k) la ma (polys n xi))
+      (cnvPrepareLaneK (q k) n (realNtt P n k) la ma (polys n (kvInts args "x2")))
+      (cnvPrepareRightLaneK (q k) n (realNtt P n k) lb mb (polys n yi))
+      (cnvPrepareRightLaneK (q k) n (realNtt P n k) lb mb (polys n (kvInts args "y2"))))
+  | "hvmp" =>
+    -- `x` = the flat input limbs (limb-major), `y` = the matrix entries, row-major over `nrows × ncols` flat (limb-major) columns
+    let nrows := kvNat args "nrows"; let ncols := kvNat args "ncols"; let rl := kvNat args "rl"
+    let ent := (polys n yi).toArray
+    showLimbs n rl (fun k => vmpApplyLaneK (q k) (bbcH P) n
+      ((polys n xi).map (fun a => realNtt P n k (a.map (fun x => bFromU64K (q k) (asU64 x)))))
+      (fun i c => vmpPrepareLaneK (q k) (realNtt P n k) (ent.getD (i * ncols + c) []))
+      nrows ncols (kvNat args "off") rl)
+  | "hplan" =>
+    let w := vmpWrites (kvNat args "lo") (kvNat args "cm") (kvNat args "ncols")
+    if w.isEmpty then "-" else "|".intercalate (w.map (fun v => s!"{v.colRes},{if v.twoCols then 2 else 1},{v.colPmat},{v.half}"))
+  | "hslot" => toString (vmpSlotAddr (kvNat args "nrows") (kvNat args "ncols") (kvNat args "row") (kvNat args "col") (kvNat args "blk"))
+  | "hexpr" =>
+    match parseExpr n (((kv args "e").getD "").splitOn ",") with
+    | some (e, _) => showNats (limbWords n (fun k => e.lane P k n avx)) ++ " spec=" ++ showInts (e.spec n)
+    | none => "bad-expr"
+  | _ => "bad-op"
+
 def handle (ts : List String) : String :=
   match ts with
   | [] => "bad-op"
@@ -80,6 +143,10 @@ def handle (ts : List String) : String :=
     let xi := kvInts args "x"
     let ell := kvNat args "ell"
     match op with
+    | "packl" => showOut showNats (packLeft1BlkX2 P xa (kvNat args "rows") (kvNat args "stride") (kvNat args "blk"))
+    | "packr" => showOut showNats (packRight1BlkX2 xa (kvNat args "rows") (kvNat args "stride") (kvNat args "blk"))
+    | "ppackl" => showOut showNats (pairwisePackLeft1BlkX2 P xa ya (kvNat args "rows") (kvNat args "stride") (kvNat args "blk"))
+    | "ppackr" => showOut showNats (pairwisePackRight1BlkX2 xa ya (kvNat args "rows") (kvNat args "stride") (kvNat args "blk"))
     | "consts" => consts P
     | "ntt" => showOut showNats (transform P false (kvNat args "n") xa)
     | "intt" => showOut showNats (transform P true (kvNat args "n") xa)
@@ -108,6 +175,6 @@ def handle (ts : List String) : String :=
     | "red" => toString (modqRed (kvNat args "x") (kvNat args "h") (kvNat args "mask") (kvNat args "cst"))
     | "pow" => toString (modqPow (kvNat args "x") (kvInt args "n") (kvNat args "q"))
     | "pipe" => showInts ((kvInts args "b").map (fun b => scalarPipeline P (bbcH P) b (kvInt args "a")))
-    | _ => "bad-op"
+    | _ => handleHal P op args avx
 
 end Drv.Ntt120
